@@ -973,7 +973,11 @@ theorem upsert_restore (sc : Schema) (cfg : Cfg) (t : Table) (args : Args)
     (hrows : ∀ es ∈ rows, es.length = sc.ncols) (ha : ∀ p ∈ assign, p.1 ∉ sc.pk)
     (h : stmtPhase1 sc cfg t args (.upsert rows assign) = .ok (t', item, keys)) :
     StmtRestoresX sc cfg t t' item (extraItems sc t t' args (.upsert rows assign)) := by
-  simp only [stmtPhase1, apply, Except.ok.injEq, Prod.mk.injEq] at h
+  have hany : (assign.any fun a => sc.pk.contains a.1) = false := by
+    rw [List.any_eq_false]
+    intro p hp
+    simpa using ha p hp
+  simp only [stmtPhase1, hany, Bool.false_eq_true, if_false, apply, Except.ok.injEq, Prod.mk.injEq] at h
   obtain ⟨rfl, rfl, rfl⟩ := h
   simp only [extraItems]
   have hnl : ∀ r ∈ rows.map (fun es => es.map (evalE [] args)), r.length = sc.ncols := by
